@@ -21,16 +21,24 @@ use std::sync::atomic::{AtomicUsize, Ordering};
 // then, or the region is abandoned).
 
 const REGION_SIZE: usize = 1 << 20;
-const MAX_REGIONS: usize = 4096;
+/// regions live in one contiguous arena (reserved lazily, committed page by
+/// page when touched), so "is this pointer region memory" is one comparison
+const MAX_REGIONS: usize = 1024;
 const BUMP_MAX_ALLOC: usize = 1 << 16;
 
-static REGION_BASES: [AtomicUsize; MAX_REGIONS] = [const { AtomicUsize::new(0) }; MAX_REGIONS];
-static REGION_COUNT: AtomicUsize = AtomicUsize::new(0);
-static REGION_MIN: AtomicUsize = AtomicUsize::new(usize::MAX);
-static REGION_MAX: AtomicUsize = AtomicUsize::new(0);
+static ARENA: AtomicUsize = AtomicUsize::new(0);
+static ARENA_INIT: AtomicUsize = AtomicUsize::new(0);
+/// 0 = free, 1 = leased to a thread (or abandoned for good)
+static SLOTS: [AtomicUsize; MAX_REGIONS] = [const { AtomicUsize::new(0) }; MAX_REGIONS];
+static SLOT_HINT: AtomicUsize = AtomicUsize::new(0);
+/// set by the first allocation that goes through `QuarantineAlloc`: without it
+/// as the global allocator (fuzz targets) no arena is reserved at all
+static INSTALLED: AtomicUsize = AtomicUsize::new(0);
 
 struct Bump {
 	base: usize,
+	/// the slot is this thread's own (returned to the pool when the thread exits)
+	owned: bool,
 	lo: usize,
 	hi: usize,
 	active: bool,
@@ -42,23 +50,70 @@ struct Bump {
 struct BCell(UnsafeCell<Bump>);
 unsafe impl Sync for BCell {}
 
+impl Drop for BCell {
+	fn drop(&mut self) {
+		let b = self.0.get_mut();
+		if b.base != 0 && b.owned {
+			release_slot(b.base);
+		}
+		b.base = 0;
+	}
+}
+
 thread_local! {
-	static B: BCell = const { BCell(UnsafeCell::new(Bump { base: 0, lo: 0, hi: 0, active: false, count: 0, layout: [0; 32], layout_len: 0 })) };
+	static B: BCell = const { BCell(UnsafeCell::new(Bump { base: 0, owned: false, lo: 0, hi: 0, active: false, count: 0, layout: [0; 32], layout_len: 0 })) };
+}
+
+fn arena() -> usize {
+	let a = ARENA.load(Ordering::Acquire);
+	if a != 0 {
+		return a;
+	}
+	// one thread reserves, the others wait for it
+	if ARENA_INIT.compare_exchange(0, 1, Ordering::AcqRel, Ordering::Acquire).is_ok() {
+		let p = unsafe { System.alloc(Layout::from_size_align_unchecked(REGION_SIZE * MAX_REGIONS, 4096)) } as usize;
+		ARENA.store(if p == 0 { usize::MAX } else { p }, Ordering::Release);
+	}
+	loop {
+		let a = ARENA.load(Ordering::Acquire);
+		if a != 0 {
+			return a;
+		}
+		std::hint::spin_loop();
+	}
+}
+
+fn claim_slot() -> usize {
+	let a = arena();
+	if a == usize::MAX {
+		return 0;
+	}
+	let start = SLOT_HINT.load(Ordering::Relaxed);
+	for k in 0..MAX_REGIONS {
+		let i = (start + k) % MAX_REGIONS;
+		if SLOTS[i].compare_exchange(0, 1, Ordering::AcqRel, Ordering::Relaxed).is_ok() {
+			SLOT_HINT.store(i + 1, Ordering::Relaxed);
+			return a + i * REGION_SIZE;
+		}
+	}
+	0
+}
+
+fn release_slot(base: usize) {
+	let a = ARENA.load(Ordering::Acquire);
+	if a == 0 || a == usize::MAX || base < a {
+		return;
+	}
+	let i = (base - a) / REGION_SIZE;
+	if i < MAX_REGIONS {
+		SLOTS[i].store(0, Ordering::Release);
+	}
 }
 
 #[inline]
 fn in_region(p: usize) -> bool {
-	if p < REGION_MIN.load(Ordering::Relaxed) || p >= REGION_MAX.load(Ordering::Relaxed) {
-		return false;
-	}
-	let n = REGION_COUNT.load(Ordering::Acquire).min(MAX_REGIONS);
-	for b in REGION_BASES.iter().take(n) {
-		let base = b.load(Ordering::Acquire);
-		if base != 0 && p >= base && p < base + REGION_SIZE {
-			return true;
-		}
-	}
-	false
+	let a = ARENA.load(Ordering::Relaxed);
+	a != 0 && a != usize::MAX && p >= a && p < a + REGION_SIZE * MAX_REGIONS
 }
 
 unsafe fn bump_alloc(layout: Layout) -> *mut u8 {
@@ -90,28 +145,49 @@ unsafe fn bump_alloc(layout: Layout) -> *mut u8 {
 	.unwrap_or(std::ptr::null_mut())
 }
 
+/// This thread's region (claimed on first use, returned to the pool when the
+/// thread exits); 0 = none available (placement is then up to the system
+/// allocator, i.e. not a function of the case).
+pub fn my_region() -> usize {
+	if INSTALLED.load(Ordering::Relaxed) == 0 {
+		return 0;
+	}
+	B.with(|b| unsafe {
+		let b = &mut *b.0.get();
+		if b.base == 0 {
+			let p = claim_slot();
+			if p != 0 {
+				b.base = p;
+				b.owned = true;
+			}
+		}
+		b.base
+	})
+}
+
 /// Run `f` (a world build) with this thread's allocations placed
 /// deterministically according to `layout`.  Without the quarantine allocator
 /// installed as the global allocator (fuzz targets) this is just `f()`.
 pub fn with_bump<T>(layout: &[u8], f: impl FnOnce() -> T) -> T {
+	let base = my_region();
+	with_bump_at(base, layout, f)
+}
+
+/// Like `with_bump`, in a region that belongs to another thread (a world built
+/// by a helper thread on behalf of `base`'s owner, who keeps the world).
+pub fn with_bump_at<T>(base: usize, layout: &[u8], f: impl FnOnce() -> T) -> T {
 	B.with(|b| unsafe {
 		let b = &mut *b.0.get();
-		if b.base == 0 {
-			// claim a registry slot first (several workers get here at once)
-			let n = REGION_COUNT.fetch_add(1, Ordering::AcqRel);
-			if n < MAX_REGIONS {
-				let p = System.alloc(Layout::from_size_align_unchecked(REGION_SIZE, 4096)) as usize;
-				if p != 0 {
-					REGION_MIN.fetch_min(p, Ordering::AcqRel);
-					REGION_MAX.fetch_max(p + REGION_SIZE, Ordering::AcqRel);
-					REGION_BASES[n].store(p, Ordering::Release);
-					b.base = p;
+		if base != 0 {
+			if b.base != base {
+				if b.base != 0 && b.owned {
+					release_slot(b.base);
 				}
+				b.base = base;
+				b.owned = false;
 			}
-		}
-		if b.base != 0 {
-			b.lo = b.base;
-			b.hi = b.base + REGION_SIZE;
+			b.lo = base;
+			b.hi = base + REGION_SIZE;
 			b.count = 0;
 			b.layout_len = layout.len().min(32);
 			b.layout[..b.layout_len].copy_from_slice(&layout[..b.layout_len]);
@@ -126,10 +202,12 @@ pub fn with_bump<T>(layout: &[u8], f: impl FnOnce() -> T) -> T {
 }
 
 /// The world built in this thread's region may still be referenced (a logical
-/// thread could not be joined): never reuse the region.
+/// thread could not be joined): never reuse the region (its slot stays taken).
 pub fn abandon_region() {
 	B.with(|b| unsafe {
-		(*b.0.get()).base = 0;
+		let b = &mut *b.0.get();
+		b.base = 0;
+		b.owned = false;
 	});
 }
 
@@ -155,6 +233,9 @@ pub struct QuarantineAlloc;
 
 unsafe impl GlobalAlloc for QuarantineAlloc {
 	unsafe fn alloc(&self, layout: Layout) -> *mut u8 {
+		if INSTALLED.load(Ordering::Relaxed) == 0 {
+			INSTALLED.store(1, Ordering::Relaxed);
+		}
 		let p = bump_alloc(layout);
 		if !p.is_null() {
 			return p;
